@@ -16,12 +16,19 @@ WALKERS = [
 ]
 
 
-def arg_field_store(stmt, argidx, field):
-    """statement stores into (*<arg argidx>).<field idx>"""
+def arg_field_store(stmt, argidx, field, fn=None):
+    """statement stores into (*<arg argidx>).<field idx> - directly, or through a reference that denotes that place (a
+    by-reference capture of an inlined closure)"""
     if stmt["k"] != "Assign":
         return False
     pj = stmt["p"]["proj"]
-    return stmt["p"]["l"] == argidx and len(pj) == 2 and pj[0][0] == "deref" and pj[1][0] == "field" and pj[1][1] == field
+    if stmt["p"]["l"] == argidx and len(pj) == 2 and pj[0][0] == "deref" and pj[1][0] == "field" and pj[1][1] == field:
+        return True
+    if fn is not None and pj:
+        from .mir import flat_place
+        root, names = flat_place(fn.term_of_place(stmt["p"]))
+        return root[:2] == ("arg", argidx) and names == (str(field),)
+    return False
 
 
 def _dir_cluster_term(t):
@@ -114,7 +121,18 @@ def ls4(F, R):
                                 good_ = bool(rs_) and all(r[0] == "call" and r[1] and (path_matches(r[1], "FatVolume::next_cluster") or path_matches(r[1], "FatVolume::alloc_cluster")) for r in rs_)
                                 if not good_:
                                     problems.append("inside the walk the block-range start is recomputed from %s, which is not (only) the cluster just returned by next_cluster / alloc_cluster" % tstr(x))
-                        for d in var_def_terms(fn, st[1]):
+                        # (a definition that copies another local stands for that local's definitions)
+                        dts_, seen_ = [], set()
+                        work_ = list(var_def_terms(fn, st[1]))
+                        while work_:
+                            d = work_.pop()
+                            d0 = strip_refs(d)
+                            if d0[0] == "var" and d0[1] not in seen_ and d0[1] != st[1]:
+                                seen_.add(d0[1])
+                                work_ += list(var_def_terms(fn, d0[1]))
+                            else:
+                                dts_.append(d)
+                        for d in dts_:
                             okd = (d[0] == "call" and d[1] and (path_matches(d[1], "FatVolume::cluster_to_block")))
                             okd = okd or tmatch(d, ("call", "Add::add", [("place", ("arg", 1), ("*", "lba_start")), "_"])) is not None
                             if not okd:
@@ -122,6 +140,23 @@ def ls4(F, R):
                             if tmatch(d, ("call", "Add::add", [("place", ("arg", 1), ("*", "lba_start")), "_"])) is not None:
                                 if "first_root_dir_block" not in tstr(d):
                                     problems.append("FAT16 root region start is %s, expected lba_start + first_root_dir_block" % tstr(d))
+                        # the fixed root region is the start only for the root directory: every definition that takes it lies
+                        # behind `directory cluster == ROOT_DIR` (a walk that always starts there scans the root for any directory)
+                        for dd in fn.defs().get(st[1], []):
+                            if dd[0] not in ("assign", "call"):
+                                continue
+                            dt2 = fn.term_of_rvalue(dd[3], dd[1]) if dd[0] == "assign" else fn.call_term(dd[2], dd[1])
+                            if "first_root_dir_block" in tstr(dt2):
+                                def is_root_test(g):
+                                    if g.kind == "value" and g.value == 0xFFFFFFFC:
+                                        return True
+                                    for (op_, a_, z_, tr_) in __import__("analysis.ev", fromlist=["cmp_forms"]).cmp_forms(g):
+                                        if op_ == "Eq" and tr_ and (strip_refs(z_)[:2] == ("c", 0xFFFFFFFC) or strip_refs(a_)[:2] == ("c", 0xFFFFFFFC)):
+                                            return True
+                                    return False
+                                from .ev import implying_edges
+                                if dd[1] in fn.reach([0], cut_edges=list(implying_edges(fn, is_root_test))):
+                                    problems.append("the walk starts at the fixed FAT16 root region without the directory being the root (no `cluster == ROOT_DIR` test on the way): a sub-directory operation scans / changes the root directory instead")
                     elif st[0] == "call" and st[1] and path_matches(st[1], "FatVolume::cluster_to_block"):
                         a = st[2][1]
                         if not has_sub(a, lambda q: q[0] == "var"):
@@ -161,6 +196,10 @@ def ls5(F, R):
             return names in (["first_cluster_fat16", "first_cluster_fat32"],)
 
         def is_empty_test(g):
+            if g.kind == "value" and g.value == 0:
+                # `match cluster { ClusterId::EMPTY if .. => .., other => .. }`: a switch on the cluster number
+                x = strip_refs(g.term)
+                return x[0] == "place" and tuple(e for e in x[2] if e != "*") == ("0",) and full_cluster(x[1])
             if not (g.kind == "bool" and g.term[0] == "cmp" and g.term[1] == "Eq" and g.truth is True):
                 return False
             a, z = g.term[2], g.term[3]
@@ -193,10 +232,19 @@ def ls5(F, R):
     cps = [(b, t) for b, t in fn.calls() if (callee_of(t) or "").endswith("copy_from_slice")]
     okn = False
     if len(cps) == 1:
-        d = tstr(fn.term_of_operand(cps[0][1]["args"][0], cps[0][0]))
+        dt_ = strip_refs(fn.term_of_operand(cps[0][1]["args"][0], cps[0][0]))
+        d = tstr(dt_)
         src = fn.term_of_operand(cps[0][1]["args"][1], cps[0][0])
         rng = find_sub(src, ("agg", "Range", ["$a", "$b"]))
-        okn = d.endswith("name.contents") and rng is not None and rng["$a"][:2] == ("c", 0) and rng["$b"][:2] == ("c", 11) and has_sub(src, lambda q: q[0] == "place" and "data" in [e for e in q[2] if isinstance(e, str)] and strip_refs(q[1])[:2] == ("arg", 1))
+        # the destination: the entry's name bytes, in place or as a local array that becomes `ShortFileName { contents }`
+        into_name = d.endswith("name.contents")
+        if not into_name:
+            root_ = dt_
+            while root_[0] in ("place", "call") and (root_[0] == "place" or (root_[1] or "").split("::")[-1] in ("index_mut", "deref_mut", "as_mut_slice", "as_mut")):
+                root_ = strip_refs(root_[1] if root_[0] == "place" else root_[2][0])
+            if root_[0] == "var" and fn.locals[root_[1]]["ty"] == "[u8; 11]":
+                into_name = any(s2["k"] == "Assign" and s2["rv"]["k"] == "Aggregate" and s2["rv"].get("adt", "").endswith("ShortFileName") and any(strip_refs(fn.term_of_operand(o, b2)) == root_ for o in s2["rv"]["ops"]) for b2, i2, s2 in fn.stmts())
+        okn = into_name and rng is not None and rng["$a"][:2] == ("c", 0) and rng["$b"][:2] == ("c", 11) and has_sub(src, lambda q: q[0] == "place" and "data" in [e for e in q[2] if isinstance(e, str)] and strip_refs(q[1])[:2] == ("arg", 1))
     extra = [fn.loc(b, i) for b, i, s in fn.stmts() if s["k"] == "Assign" and s["p"]["proj"] and "contents" in [e[2] for e in s["p"]["proj"] if e[0] == "field"] and any(e[0] in ("index", "constindex") for e in s["p"]["proj"])]
     R.require(okn and not extra, fn, "name-verbatim", "get_entry must copy bytes 0..11 of the slot into the name unchanged and must not patch single name bytes afterwards (stores at %s): listing, lookup and the long-name checksum all work on the stored bytes" % extra, fn.loc(0))
     f32 = F.fn("OnDiskDirEntry::first_cluster_fat32")
@@ -271,7 +319,7 @@ def sk2(F, R):
     for b, t in ncs:
         curt = strip_refs(fn.term_of_operand(t["args"][2], b))
         cur = "(*start).1" if (curt[0] == "place" and curt[1][:2] == ("arg", 3) and tuple(curt[2]) == ("*", "1")) else tstr(curt)
-        stores = [(bb, ii) for bb, ii, s in fn.stmts() if arg_field_store(s, 3, 1) and has_sub(fn.term_of_rvalue(s["rv"], bb), lambda q: q[0] == "call" and q[3] == b)]
+        stores = [(bb, ii) for bb, ii, s in fn.stmts() if arg_field_store(s, 3, 1, fn) and has_sub(fn.term_of_rvalue(s["rv"], bb), lambda q: q[0] == "call" and q[3] == b)]
         okadv = cur == "(*start).1" and len(stores) == 1
     R.require(okadv, fn, "advance-in-place", "the FAT walk must read from and store into the caller's cursor `start.1` on every step (a private copy leaves the caller with a stale cursor when the walk ends with EndOfFile)", fn.loc(ncs[0][0]) if ncs else None)
     # caller side: write() links the new cluster after the cursor it passed
@@ -726,6 +774,11 @@ def io1(F, R):
             ok = has_sub(a, lambda q: q[0] == "un" and q[1] == "Neg")
         R.require(ok, f, "seek:" + var, "SeekFrom::%s must map to %s%s" % (var, target, " with the negated offset" if var == "End" else ""), f.loc(0))
     R.require(any(path_matches(callee_of(t) or "", "File::offset") for b, t in f.calls()), f, "seek:returns-offset", "seek must return the file's new offset", f.loc(0))
+    # the 64-bit positions of the trait reach the 32-bit primitives only through checked conversions: no `as` cast narrows them
+    W_ = {"u8": 8, "i8": 8, "u16": 16, "i16": 16, "u32": 32, "i32": 32, "u64": 64, "i64": 64, "usize": 64, "isize": 64}
+    narrow = [(b, i) for b, i, s_ in f.stmts() if s_["k"] == "Assign" and s_["rv"]["k"] == "Cast" and s_["rv"].get("kind") == "IntToInt"
+              and W_.get(s_["rv"].get("src") or "", 0) > W_.get(s_["rv"].get("ty") or "", 99)]
+    R.require(not narrow, f, "seek:no-truncation", "seek narrows a 64-bit position with an `as` cast: a target of 2^32*k + r silently lands on offset r instead of being refused (InvalidOffset)", f.loc(narrow[0][0], narrow[0][1]) if narrow else f.loc(0))
     # no function of the crate calls itself (the adapters once did: `self.read(buf)` on &mut File resolves to the trait method)
     n = 0
     for g in F.fns:
@@ -823,6 +876,11 @@ def _is_fdd_comp(t, k):
       doc="find_data_on_disk returns (cluster_to_block(cursor cluster) + (desired - cursor offset)/512, desired % 512, 512 - desired % 512) after advancing the cursor by (desired - cursor offset)/bytes_per_cluster links, adding bytes_per_cluster per link")
 def sk5(F, R):
     fn = F.fn(VMD + "::find_data_on_disk")
+    # the translation is total on the chain: it fails only with the error of a FAT lookup (EndOfFile at the chain's end, a
+    # device error), never for a reason of its own - a refusal of valid positions makes part of the volume unusable
+    from .fsmodel import err_returns
+    own = [(b, i) for (b, i, var, term) in err_returns(fn, adt="Error")]
+    R.require(not own, fn, "no-own-errors", "find_data_on_disk returns an error of its own making (besides propagating next_cluster's): positions it refuses can be neither read nor written", fn.loc(own[0][0], own[0][1]) if own else fn.loc(0))
     oks = ok_returns(fn)
     R.require(len(oks) == 1, fn, "single-ok", "expected one Ok((block, offset, avail)) return", fn.loc(0))
     for (b, i, v) in oks:
@@ -857,7 +915,7 @@ def sk5(F, R):
     R.require(okr, fn, "link-count", "the cursor must advance by (desired_offset - start.0) / bytes_per_cluster links; loop range is %s" % ([tstr(x) for x in rng] if rng else None), fn.loc(0))
     adv = []
     for b, i, s in fn.stmts():
-        if arg_field_store(s, 3, 0):
+        if arg_field_store(s, 3, 0, fn):
             v = fn.term_of_rvalue(s["rv"], b)
             if _peq(v, _C(0)):
                 continue       # the rewind (checked by SK2)
